@@ -242,7 +242,7 @@ def run(ck):
                 continue
             ld = pyres(BinaryImage.load_binary_image, path)
             # known finding: a BIN file whose whole content is printable ASCII is sniffed as a (malformed) text format
-            texty = fmt == "BIN" and all(32 <= c < 127 or c in (9, 10, 13) for c in root.export())
+            texty = fmt == "BIN" and all(c < 128 for c in root.export())
             if ld[0] != "ok":
                 sf.expect(False, (base, [(o, hexs(d)) for o, d in segs], fmt), "load_binary_image raised on a file SPSDK wrote", ld,
                           finding="C16-bin-content-looks-like-text" if texty else None)
@@ -258,6 +258,77 @@ def run(ck):
                 ok = start == first and all(0 <= a - start < len(data2) and data2[a - start] == v for a, v in mem.items())
                 sf.expect(ok, (base, [(o, hexs(d)) for o, d in segs], fmt), f"{fmt} round trip does not give the same bytes at the same addresses", (start, first, len(data2)))
             os.unlink(path)
+
+    # ---------------------------------------------------------------- file formats on whole trees (patterns, explicit sizes, alignment, nesting)
+    st = ck.stream("file_formats_trees", "valid random trees (patterns, explicit sizes larger than the data, alignment > 1, nesting) at random base addresses saved as "
+                   "BIN/HEX/S19 and loaded again: the loaded image must hold export()'s bytes at the same absolute addresses over the stored address range "
+                   "(range computed independently: every node with a pattern stores len(node) bytes, every node with a binary stores it); non-trivial = distinct tree")
+
+    def stored_range(img, base):
+        lo, hi = None, None
+        a = base + img.offset
+        spans = []
+        if img.pattern:
+            spans.append((a, a + len(img)))
+        if img.binary:
+            spans.append((a, a + len(img.binary)))
+        for c in img.sub_images:
+            r = stored_range(c, a)
+            if r:
+                spans.append(r)
+        spans = [x for x in spans if x[1] > x[0]]
+        if not spans:
+            return None
+        return min(x[0] for x in spans), max(x[1] for x in spans)
+
+    def unpatterned_under_pattern(im, anc):
+        """a node with neither pattern nor full own binary below an ancestor that has a pattern or binary: BIN/export() hold zeros
+        there, HEX/S19 hold the ancestor's bytes (known finding)"""
+        if anc and im.pattern is None and len(im) > len(im.binary or b""):
+            return True
+        return any(unpatterned_under_pattern(c, anc or im.pattern is not None or bool(im.binary)) for c in im.sub_images)
+
+    done = 0
+    tries = 0
+    want = ck.budget(150, 3000)
+    while done < want and tries < want * 6:
+        tries += 1
+        t = gen_tree(rng, 0, 0.0)
+        try:
+            img = build(t)
+        except Exception:  # noqa: BLE001
+            continue
+        if pyres(img.validate)[0] != "ok" or len(img) == 0:
+            continue
+        img.offset = rng.choice([0, 0x10, 0xFFF8, 0x10000, 0x20001000, 0x0800_0000, rng.getrandbits(31)])
+        rngs = stored_range(img, 0)
+        if rngs is None:
+            continue
+        done += 1
+        full = img.export()
+        for fmt in ("BIN", "HEX", "S19"):
+            path = os.path.join(scratch, f"tree_{done}.{fmt.lower()}")
+            toks = " ".join(tokens(img)) + " " + fmt
+            st.note(toks, cls=fmt)
+            sv = pyres(img.save_binary_image, path, fmt)
+            if sv[0] != "ok":
+                st.expect(False, toks, "save_binary_image raised on a valid tree", sv)
+                continue
+            ld = pyres(BinaryImage.load_binary_image, path)
+            os.unlink(path)
+            texty = fmt == "BIN" and all(c < 128 for c in full)
+            if ld[0] != "ok":
+                st.expect(False, toks, "load_binary_image raised on a file SPSDK wrote", ld, finding="C16-bin-content-looks-like-text" if texty else None)
+                continue
+            data2 = ld[1].export()
+            if fmt == "BIN":
+                st.expect(data2 == full, toks, "BIN round trip changed the bytes", finding="C16-bin-content-looks-like-text" if texty else None)
+            else:
+                lo, hi = rngs
+                exp = full[lo - img.offset:hi - img.offset]
+                st.expect(ld[1].absolute_address == lo and data2 == exp, toks,
+                          f"{fmt} round trip does not give export()'s bytes at the same addresses", (ld[1].absolute_address, data2[:64]), (lo, exp[:64]),
+                          finding="C16-hex-unpatterned-child-transparent" if unpatterned_under_pattern(img, False) else None)
 
 
 def replay(ck, data):
